@@ -98,6 +98,8 @@ def run(c):
     def confirm(idx, t):
         return confirm_by_tlc(c, drv, cases[idx], "Trace_C04", t[2], context=cases[max(0, idx - 2):idx])
     c.triage(mism, classify, confirm)
+    def _c(e): e["ok"] = not e["ok"]; return e
+    binding_selftest(c, "Trace_C04", events, lambda x: x.startswith('{"op":"Dec"') and '"ok":false' in x and '"panic":false' in x, _c, "a rejected decode logged as accepted")
     c.cov["notes_unknown_iei"] = sum(1 for _, t in mism if t[0] == "NOTE")
     c.cov["slots_pinned"] = "%d of 357 table slots carried a value in at least one in-grammar generated message" % len(slots_pinned)
     c.cov["generated_paths"] = len(gen)
